@@ -132,6 +132,7 @@ def make_backend(kind, sim, n_workers):
                     out = ("ok", func())
                 except BaseException as e:
                     out = ("err", e)
+                sim.n_tasks_finished += 1
                 if out[0] == "ok":
                     job.res.value = out[1]
                 else:
@@ -224,11 +225,11 @@ def run(cfg, sched):
                                   has_len=c.get("has_len", False))
                     rec["tasks"] = tasks
                     try:
-                        r = p(tasks)
                         if cfg.get("return_as", "list") == "list":
-                            rec["result"] = r
+                            rec["result"] = p(tasks)
                         else:
-                            rec["result"] = consume(sim, p, r, c, rec, out)
+                            holder = [p(tasks)]       # the only reference: consume() can really drop the generator
+                            rec["result"] = consume(sim, p, holder, c, rec, out)
                     except BaseException as e:
                         if isinstance(e, (parsim.SimHang, parsim.SimStop)):
                             raise
@@ -247,9 +248,10 @@ def run(cfg, sched):
     return out
 
 
-def consume(sim, p, gen, c, rec, out):
+def consume(sim, p, holder, c, rec, out):
     """Generator consumption protocol: pull `pulls` items, then close / drop / exhaust; optionally try an
     overlapping call first."""
+    gen = holder.pop()
     got = []
     pulls = c.get("pulls")
     rec["overlap"] = None
